@@ -2,6 +2,7 @@ package props
 
 import (
 	"fmt"
+	"math"
 	"reflect"
 
 	structform "github.com/elastic/go-structform"
@@ -313,6 +314,49 @@ func enumFoldPoolShapes(wrap func(g *GoCase) any) func(emit func(c any) bool) {
 				c := c
 				if !emit(wrap(&c)) {
 					return
+				}
+			}
+		}
+		// omitempty matrix: every IsZeroer pool type x {IsZero() true, false} x every
+		// way an omitempty field can reach it (value, pointer, pointer to pointer,
+		// interface holding the value, interface holding a pointer), framed by two
+		// plain members
+		type zv struct {
+			name string
+			vals []gomodel.GoVal // IsZero()==true first, then false
+		}
+		f64 := func(f float64) uint64 { return math.Float64bits(f) }
+		for _, z := range []zv{
+			{"ZeroVal", []gomodel.GoVal{{Elems: []gomodel.GoVal{{I: 0}}}, {Elems: []gomodel.GoVal{{I: 7}}}}},
+			{"ZeroPtr", []gomodel.GoVal{{Elems: []gomodel.GoVal{{I: 0}}}, {Elems: []gomodel.GoVal{{I: 7}}}}},
+			{"ZInt", []gomodel.GoVal{{I: 0}, {I: -5}, {I: 5}}},
+			{"ZF64", []gomodel.GoVal{{F: f64(0)}, {F: f64(-2.5)}, {F: f64(2.5)}}},
+			{"ZFlag", []gomodel.GoVal{{B: false}, {B: true}}},
+			{"ZU8", []gomodel.GoVal{{U: 0}, {U: 4}, {U: 3}}},
+		} {
+			b := gomodel.TypeDesc{Kind: "pool", Pool: z.name}
+			pb := gomodel.TypeDesc{Kind: "ptr", Elem: &b}
+			ppb := gomodel.TypeDesc{Kind: "ptr", Elem: &pb}
+			ifc := gomodel.TypeDesc{Kind: "iface"}
+			for _, v := range z.vals {
+				v := v
+				pv := gomodel.GoVal{Ptr: &v}
+				for _, fv := range []struct {
+					t gomodel.TypeDesc
+					v gomodel.GoVal
+				}{
+					{b, v}, {pb, pv}, {ppb, gomodel.GoVal{Ptr: &pv}},
+					{ifc, gomodel.GoVal{Ptr: &v, Dyn: &b}}, {ifc, gomodel.GoVal{Ptr: &pv, Dyn: &pb}},
+				} {
+					for _, tag := range []string{`struct:",omitempty"`, `struct:"z,omitempty"`, ``} {
+						c := GoCase{
+							Type: gomodel.TypeDesc{Kind: "struct", Fields: []gomodel.FieldDesc{{Name: "A", Type: gomodel.TypeDesc{Kind: "int"}}, {Name: "F", Tag: tag, Type: fv.t}, {Name: "Z", Type: gomodel.TypeDesc{Kind: "string"}}}},
+							Val:  gomodel.GoVal{Elems: []gomodel.GoVal{{I: 1}, fv.v, {S: []byte("z")}}},
+						}
+						if !emit(wrap(&c)) {
+							return
+						}
+					}
 				}
 			}
 		}
